@@ -1,8 +1,8 @@
 package main
 
-// C30 harness, part 2 (cmd/proxy): POST /lfs/download requests x storage behaviours
-// through the real handleHTTPDownload / streamDownloadWithVerify (httptest recorder,
-// every 8th case additionally over a real httptest server).  The implementation-side
+// C30 harness, part 2 (cmd/proxy): POST /lfs/download requests x stored objects x fault sequences
+// over successive GetObject calls, through the real handleHTTPDownload / streamDownloadWithVerify
+// over a real HTTP connection (every 4th case also through a recorder).  The implementation-side
 // oracle checks "object bytes are sent only if their SHA-256 and size match the
 // integrity block the caller supplied"; every case (except the few with objects
 // > 4 KiB, which are oracle-only) is emitted as a Coq term for corr/ChecksumCorr.v.
@@ -51,19 +51,45 @@ type c30HTTPCase struct {
 	MaxBlob    int64  `json:"max_blob"`
 	Presign    bool   `json:"presign_enabled"`
 	PresignErr bool   `json:"presign_err"`
-	Object     []byte `json:"object"`                // what S3 holds under TrimSpace(key)
-	Missing    bool   `json:"missing,omitempty"`     // GetObject fails
-	ReadErrAt  int    `json:"read_err_at,omitempty"` // >0: body yields this many bytes, then a read error
+	Object     []byte       `json:"object"`             // what S3 holds under TrimSpace(key)
+	Attempts   []c30Attempt `json:"attempts"`           // behaviour of successive GetObject calls (the last one repeats)
 	Server     bool   `json:"server,omitempty"`      // also run over a real HTTP server
 	Tag        string `json:"tag"`
 }
 
-// c30S3: the package's fakeS3 plus GetObject failure / mid-stream read error injection.
+// c30Attempt: what one GetObject call does.  Kind "clean": the whole object; "short": the first K
+// bytes, then a clean EOF (truncated answer); "read-error": the first K bytes (K may be 0), then a
+// non-EOF read error; "get-error": GetObject itself fails.
+type c30Attempt struct {
+	Kind string `json:"kind"`
+	K    int    `json:"k,omitempty"`
+}
+
+// content delivered by the attempt and whether it ends in a read error; ok=false: GetObject fails
+func (a c30Attempt) outcome(object []byte) (data []byte, readErr, ok bool) {
+	k := a.K
+	if k < 0 {
+		k = 0
+	}
+	if k > len(object) {
+		k = len(object)
+	}
+	switch a.Kind {
+	case "get-error":
+		return nil, false, false
+	case "short":
+		return object[:k], false, true
+	case "read-error":
+		return object[:k], true, true
+	}
+	return object, false, true
+}
+
+// c30S3: the package's fakeS3 plus a programmed outcome per successive GetObject call.
 type c30S3 struct {
 	*fakeS3
-	missing   bool
-	readErrAt int
-	gets      []string
+	attempts []c30Attempt
+	gets     []string
 }
 
 var errC30Read = errors.New("c30: connection reset while reading object")
@@ -87,20 +113,25 @@ func (b *c30Body) Read(p []byte) (int, error) {
 func (b *c30Body) Close() error { return nil }
 
 func (f *c30S3) GetObject(ctx context.Context, params *s3.GetObjectInput, optFns ...func(*s3.Options)) (*s3.GetObjectOutput, error) {
+	n := len(f.gets)
 	f.gets = append(f.gets, *params.Key)
-	if f.missing {
-		return nil, errors.New("NoSuchKey: object not found")
-	}
-	data, ok := f.fakeS3.objects[*params.Key]
+	object, ok := f.fakeS3.objects[*params.Key]
 	if !ok {
 		return nil, errors.New("NoSuchKey: object not found")
 	}
-	length := int64(len(data))
-	body := &c30Body{data: append([]byte(nil), data...)}
-	if f.readErrAt > 0 && f.readErrAt <= len(data) {
-		body.data, body.fail = body.data[:f.readErrAt], true
+	att := c30Attempt{Kind: "clean"}
+	if len(f.attempts) > 0 {
+		if n >= len(f.attempts) {
+			n = len(f.attempts) - 1
+		}
+		att = f.attempts[n]
 	}
-	return &s3.GetObjectOutput{Body: body, ContentLength: &length}, nil
+	data, readErr, ok := att.outcome(object)
+	if !ok {
+		return nil, errors.New("NoSuchKey: object not found")
+	}
+	length := int64(len(object))
+	return &s3.GetObjectOutput{Body: &c30Body{data: append([]byte(nil), data...), fail: readErr}, ContentLength: &length}, nil
 }
 
 type c30Presign struct {
@@ -126,7 +157,7 @@ type c30HTTPObs struct {
 func c30SHA(b []byte) string { s := sha256.Sum256(b); return hex.EncodeToString(s[:]) }
 
 func c30Module(cs c30HTTPCase) (*lfsModule, *c30S3) {
-	fs3 := &c30S3{fakeS3: newFakeS3(), missing: cs.Missing, readErrAt: cs.ReadErrAt}
+	fs3 := &c30S3{fakeS3: newFakeS3(), attempts: cs.Attempts}
 	logger := slog.New(slog.NewTextHandler(io.Discard, nil))
 	m := &lfsModule{
 		logger:           logger,
@@ -149,9 +180,7 @@ func c30Module(cs c30HTTPCase) (*lfsModule, *c30S3) {
 	if !cs.Req.Unhealthy {
 		atomic.StoreUint32(&m.s3Healthy, 1)
 	}
-	if !cs.Missing {
-		fs3.fakeS3.objects[strings.TrimSpace(cs.Req.Key)] = append([]byte(nil), cs.Object...)
-	}
+	fs3.fakeS3.objects[strings.TrimSpace(cs.Req.Key)] = append([]byte(nil), cs.Object...)
 	fs3.fakeS3.objects["test-ns/decoy/lfs/other"] = []byte("decoy-object-bytes-decoy-object-bytes")
 	return m, fs3
 }
@@ -191,77 +220,106 @@ func c30Parse(status int, hdr http.Header, body []byte) (c30HTTPObs, string) {
 	return o, ""
 }
 
-func c30HTTPRun(cs c30HTTPCase) (obs c30HTTPObs, keyOK bool, fail, failKey string) {
+// c30Exchange sends the request once to a fresh module.  viaServer: over a real HTTP
+// connection (httptest.NewServer + http.Client) — the body is what the CLIENT received;
+// otherwise through an httptest.ResponseRecorder.
+func c30Exchange(cs c30HTTPCase, viaServer bool) (status int, hdr http.Header, body []byte, calls int, keyOK bool, err error) {
+	m, fs3 := c30Module(cs)
+	keyOK = m.lfsValidateObjectKey(strings.TrimSpace(cs.Req.Key)) == nil
+	if !viaServer {
+		req := httptest.NewRequest(cs.Req.Method, "/lfs/download", bytes.NewReader(c30Body_(cs)))
+		if cs.Req.SentKey != "" {
+			req.Header.Set("X-API-Key", cs.Req.SentKey)
+		}
+		rr := httptest.NewRecorder()
+		m.handleHTTPDownload(rr, req)
+		return rr.Code, rr.Header(), rr.Body.Bytes(), len(fs3.gets), keyOK, nil
+	}
+	srv := httptest.NewServer(http.HandlerFunc(m.handleHTTPDownload))
+	defer srv.Close()
+	rq, _ := http.NewRequest(cs.Req.Method, srv.URL+"/lfs/download", bytes.NewReader(c30Body_(cs)))
+	if cs.Req.SentKey != "" {
+		rq.Header.Set("X-API-Key", cs.Req.SentKey)
+	}
+	resp, derr := http.DefaultClient.Do(rq)
+	if derr != nil {
+		return 0, nil, nil, len(fs3.gets), keyOK, derr
+	}
+	wire, rerr := io.ReadAll(resp.Body)
+	_ = resp.Body.Close()
+	return resp.StatusCode, resp.Header, wire, len(fs3.gets), keyOK, rerr
+}
+
+func c30HTTPRun(cs c30HTTPCase) (obs c30HTTPObs, keyOK bool, calls int, fail, failKey string) {
 	setFail := func(k, f string) {
 		if fail == "" {
 			fail, failKey = f, k
 		}
 	}
-	m, fs3 := c30Module(cs)
-	keyOK = m.lfsValidateObjectKey(strings.TrimSpace(cs.Req.Key)) == nil
-	req := httptest.NewRequest(cs.Req.Method, "/lfs/download", bytes.NewReader(c30Body_(cs)))
-	if cs.Req.SentKey != "" {
-		req.Header.Set("X-API-Key", cs.Req.SentKey)
+	// primary observation: what an HTTP client received over a real connection
+	status, hdr, received, calls, keyOK, xerr := c30Exchange(cs, true)
+	if xerr != nil {
+		setFail("client-transfer-failed", fmt.Sprintf("HTTP exchange failed: %v (status %d, %d bytes received)", xerr, status, len(received)))
 	}
-	rr := httptest.NewRecorder()
-	m.handleHTTPDownload(rr, req)
-	obs, perr := c30Parse(rr.Code, rr.Header(), rr.Body.Bytes())
-	if perr != "" {
+	obs, perr := c30Parse(status, hdr, received)
+	if perr != "" && xerr == nil {
 		setFail("malformed-response", perr)
 	}
 	object := cs.Object
-	// ---- the property's clauses on the real response ----
+	// ---- the property's clauses on the bytes the client received ----
 	wantSHA := strings.ToLower(strings.TrimSpace(cs.Req.SHA))
 	if obs.status == http.StatusOK && obs.code == "stream" {
-		switch {
-		case cs.Missing || (cs.ReadErrAt > 0 && cs.ReadErrAt <= len(object)):
-			if cs.Missing || !bytes.Equal(obs.body, object) {
-				setFail("served-incomplete-object", fmt.Sprintf("200 with %d bytes although the object could not be read completely", len(obs.body)))
+		if got := c30SHA(received); got != wantSHA {
+			setFail("served-sha-mismatch", fmt.Sprintf("200: the client received %d bytes whose SHA-256 is %s, caller supplied %q", len(received), got, cs.Req.SHA))
+		}
+		if int64(len(received)) != cs.Req.Size {
+			setFail("served-size-mismatch", fmt.Sprintf("200: the client received %d bytes, caller supplied integrity.size=%d (sha matches: %v)", len(received), cs.Req.Size, c30SHA(received) == wantSHA))
+		}
+		// byte for byte: the received bytes are the complete answer of ONE storage read that was
+		// made and ended without error (never a mixture of attempts, never a partial read) ...
+		okSource := false
+		for i := 0; i < calls; i++ {
+			att := c30Attempt{Kind: "clean"}
+			if len(cs.Attempts) > 0 {
+				k := i
+				if k >= len(cs.Attempts) {
+					k = len(cs.Attempts) - 1
+				}
+				att = cs.Attempts[k]
 			}
-		case !bytes.Equal(obs.body, object):
-			setFail("served-wrong-bytes", fmt.Sprintf("200 body %v, object is %v", c30Short(obs.body), c30Short(object)))
+			if data, readErr, ok := att.outcome(object); ok && !readErr && bytes.Equal(data, received) {
+				okSource = true
+			}
 		}
-		if got := c30SHA(obs.body); got != wantSHA {
-			setFail("served-sha-mismatch", fmt.Sprintf("200 with body whose SHA-256 is %s, caller supplied %q", got, cs.Req.SHA))
+		if !okSource {
+			setFail("served-wrong-bytes", fmt.Sprintf("200: the client received %s, which is not the complete answer of any error-free storage read of this request (object %s, attempts %+v, %d GetObject calls)", c30Short(received), c30Short(object), cs.Attempts, calls))
 		}
-		if int64(len(obs.body)) != cs.Req.Size {
-			setFail("served-size-mismatch", fmt.Sprintf("200 with %d bytes, caller supplied integrity.size=%d (sha matches: %v)", len(obs.body), cs.Req.Size, c30SHA(obs.body) == wantSHA))
+		// ... and when the caller's envelope describes the stored object, they are that object
+		if c30SHA(object) == wantSHA && !bytes.Equal(received, object) {
+			setFail("served-wrong-bytes", fmt.Sprintf("200: the client received %s, the stored object is %s", c30Short(received), c30Short(object)))
 		}
-		if cl := rr.Header().Get("Content-Length"); cl != fmt.Sprint(len(obs.body)) {
-			setFail("content-length-wrong", fmt.Sprintf("Content-Length %q for %d bytes", cl, len(obs.body)))
+		if cl := hdr.Get("Content-Length"); cl != fmt.Sprint(len(received)) {
+			setFail("content-length-wrong", fmt.Sprintf("Content-Length %q for %d bytes", cl, len(received)))
+		}
+		if obs.echoSHA != wantSHA {
+			setFail("checksum-header-wrong", fmt.Sprintf("X-Kafscale-LFS-Checksum sha256=%s, caller supplied %q", obs.echoSHA, cs.Req.SHA))
 		}
 	} else {
 		// no object bytes in any other response
-		if len(object) >= 12 && bytes.Contains(rr.Body.Bytes(), object[:12]) {
+		if len(object) >= 12 && bytes.Contains(received, object[:12]) {
 			setFail("object-bytes-leaked", fmt.Sprintf("status %d (%s) response contains object bytes", obs.status, obs.code))
 		}
-		if obs.status == http.StatusOK && obs.code == "presign" && len(fs3.gets) > 0 {
+		if obs.status == http.StatusOK && obs.code == "presign" && calls > 0 {
 			setFail("presign-read-object", "presign mode read the object")
 		}
 	}
-	// the same request over a real HTTP connection must give the same answer (bytes on the wire)
+	// the recorder must see the same answer as the wire
 	if cs.Server {
-		m2, _ := c30Module(cs)
-		srv := httptest.NewServer(http.HandlerFunc(m2.handleHTTPDownload))
-		rq, _ := http.NewRequest(cs.Req.Method, srv.URL, bytes.NewReader(c30Body_(cs)))
-		if cs.Req.SentKey != "" {
-			rq.Header.Set("X-API-Key", cs.Req.SentKey)
+		st2, h2, b2, calls2, _, _ := c30Exchange(cs, false)
+		o2, _ := c30Parse(st2, h2, b2)
+		if o2.status != obs.status || o2.code != obs.code || !bytes.Equal(o2.body, obs.body) || calls2 != calls {
+			setFail("wire-differs-from-recorder", fmt.Sprintf("over HTTP: %d %s %d bytes %d calls; recorder: %d %s %d bytes %d calls", obs.status, obs.code, len(obs.body), calls, o2.status, o2.code, len(o2.body), calls2))
 		}
-		resp, err := http.DefaultClient.Do(rq)
-		if err != nil {
-			setFail("server-request-failed", err.Error())
-		} else {
-			wire, rerr := io.ReadAll(resp.Body)
-			_ = resp.Body.Close()
-			if rerr != nil {
-				setFail("server-body-read-failed", rerr.Error())
-			}
-			o2, _ := c30Parse(resp.StatusCode, resp.Header, wire)
-			if o2.status != obs.status || o2.code != obs.code || !bytes.Equal(o2.body, obs.body) {
-				setFail("wire-differs-from-recorder", fmt.Sprintf("over HTTP: %d %s %d bytes; recorder: %d %s %d bytes", o2.status, o2.code, len(o2.body), obs.status, obs.code, len(obs.body)))
-			}
-		}
-		srv.Close()
 	}
 	return
 }
@@ -285,7 +343,7 @@ func c30HTTPGen(r *vRand, i int) c30HTTPCase {
 	}
 	honest := r.Bytes(n)
 	validKey := "test-ns/topic/lfs/2025/01/01/obj-" + hex.EncodeToString(r.Bytes(3))
-	cs := c30HTTPCase{MaxBlob: 5 << 30, Presign: r.Chance(50), Server: i%8 == 0}
+	cs := c30HTTPCase{MaxBlob: 5 << 30, Presign: r.Chance(50), Server: i%4 == 0}
 	q := c30Req{Method: http.MethodPost, Bucket: "test-bucket", Key: validKey, Mode: "stream", SHA: c30SHA(honest), Alg: "sha256", Size: int64(n)}
 	cs.Tag = "honest-request"
 	pick := func(xs ...string) string { return xs[r.Intn(len(xs))] }
@@ -342,13 +400,9 @@ func c30HTTPGen(r *vRand, i int) c30HTTPCase {
 	case 8:
 		cs.Object = bytes.Repeat(honest, 3)
 		cs.Tag += "/oversized"
-	case 9:
-		cs.Object, cs.Missing = []byte{}, true
-		cs.Tag += "/get-error"
-	case 10:
+	case 9, 10:
 		cs.Object = honest
-		cs.ReadErrAt = r.Range(1, n)
-		cs.Tag += "/read-error"
+		cs.Tag += "/exact"
 	default:
 		// the caller's envelope describes a prefix-consistent but different object: its SHA-256 is
 		// right for what the storage holds, the declared size is not
@@ -359,32 +413,76 @@ func c30HTTPGen(r *vRand, i int) c30HTTPCase {
 	if cs.Object == nil {
 		cs.Object = []byte{}
 	}
+	// fault sequence over successive GetObject calls for this one request
+	no := len(cs.Object)
+	pickK := func() int {
+		ks := []int{0, 1, no - 1, no, no / 2, r.Range(0, no), 32*1024 - 1, 32 * 1024, 32*1024 + 1, 64 * 1024}
+		k := ks[r.Intn(len(ks))]
+		if k < 0 {
+			k = 0
+		}
+		if k > no {
+			k = no
+		}
+		return k
+	}
+	one := func() c30Attempt {
+		switch r.Intn(8) {
+		case 0, 1, 2:
+			return c30Attempt{Kind: "read-error", K: pickK()}
+		case 3:
+			return c30Attempt{Kind: "get-error"}
+		case 4:
+			return c30Attempt{Kind: "short", K: pickK()}
+		}
+		return c30Attempt{Kind: "clean"}
+	}
+	switch r.Intn(10) {
+	case 0, 1, 2, 3, 4:
+		cs.Attempts = []c30Attempt{{Kind: "clean"}}
+	case 5, 6: // a failed first read followed by a clean one: what a retrying handler would see
+		k := pickK()
+		if k == 0 && no > 0 && r.Chance(70) {
+			k = r.Range(1, no)
+		}
+		cs.Attempts = []c30Attempt{{Kind: "read-error", K: k}, {Kind: "clean"}}
+		cs.Tag += "/read-error-then-clean"
+	default:
+		for i, na := 0, r.Range(1, 4); i < na; i++ {
+			cs.Attempts = append(cs.Attempts, one())
+		}
+		cs.Tag += "/fault-sequence"
+	}
 	return cs
 }
 
-func c30CoqHTTP(cs c30HTTPCase, obs c30HTTPObs, keyOK bool) string {
+func c30CoqHTTP(cs c30HTTPCase, obs c30HTTPObs, keyOK bool, calls int) string {
 	q := cs.Req
 	auth := q.APIKey == "" || strings.TrimSpace(q.SentKey) == q.APIKey
-	obj := "GErr"
-	data := cs.Object
-	rerr := false
-	if cs.ReadErrAt > 0 && cs.ReadErrAt <= len(cs.Object) {
-		data, rerr = cs.Object[:cs.ReadErrAt], true
+	atts := cs.Attempts
+	if len(atts) == 0 {
+		atts = []c30Attempt{{Kind: "clean"}}
 	}
-	if !cs.Missing {
-		obj = fmt.Sprintf("(GBody %s %s)", cqBytes(data), cqBool(rerr))
+	items := make([]string, len(atts))
+	for i, a := range atts {
+		if data, readErr, ok := a.outcome(cs.Object); ok {
+			items[i] = fmt.Sprintf("GBody %s %s", cqBytes(data), cqBool(readErr))
+		} else {
+			items[i] = "GErr"
+		}
 	}
-	// the digest of what the handler buffers (at most size+1 bytes), computed here with crypto/sha256
-	buffered := data
+	// the digest of what the handler buffers from the FIRST attempt (at most size+1 bytes), computed
+	// here with crypto/sha256: the model's hash function is the table of this one value
+	buffered, _, _ := atts[0].outcome(cs.Object)
 	if q.Size >= 0 && q.Size < int64(len(buffered)) {
 		buffered = buffered[:q.Size+1]
 	}
-	return fmt.Sprintf("CDownload (mkCfg %s %s %s) (mkReq %s %s %s %s %s %s %s %s %s %s %s %s) %s %s %s %d %s %s %s %s",
+	return fmt.Sprintf("CDownload (mkCfg %s %s %s) (mkReq %s %s %s %s %s %s %s %s %s %s %s %s) %s %s %s %d %s %s %s %s %d",
 		cqStr("test-bucket"), cqZ(cs.MaxBlob), cqBool(cs.Presign),
 		cqBool(q.Method == http.MethodPost), cqBool(auth), cqBool(!q.Unhealthy), cqBool(!q.BadJSON), cqStr(q.Bucket), cqStr(q.Key), cqStr(q.Mode),
 		cqBool(keyOK), cqBool(!q.NoInteg), cqStr(q.SHA), cqStr(q.Alg), cqZ(q.Size),
-		obj, cqStr(c30SHA(buffered)), cqBool(!cs.PresignErr),
-		obs.status, cqStr(obs.code), cqBytes(obs.body), cqStr(obs.echoSHA), cqZ(obs.echoSize))
+		cqList(items), cqStr(c30SHA(buffered)), cqBool(!cs.PresignErr),
+		obs.status, cqStr(obs.code), cqBytes(obs.body), cqStr(obs.echoSHA), cqZ(obs.echoSize), calls)
 }
 
 func c30WriteCasesHTTP(rep *vReport, name, requires, caseType, checkFn string, cases, jsons []string) {
@@ -417,10 +515,10 @@ func c30WriteCasesHTTP(rep *vReport, name, requires, caseType, checkFn string, c
 }
 
 func TestVerifC30Http(t *testing.T) {
-	rep := vNewReport("C30", "cmd/proxy: POST /lfs/download requests (method, API key, health, JSON, bucket/key/mode spellings incl. Unicode white space and U+0130, integrity sha256 absent/upper case/padded/short/non-hex/foreign, checksum_alg, size 0/-1/len-1/len/len+1/MaxInt64, maxBlob, presign on/off/failing) x storage (exact, tampered bit, truncated, extended, 3x oversized, GetObject error, read error after k bytes, sha-right-but-size-wrong; objects 1 B..70 KB incl. around the 32 KiB copy buffer) through the real handleHTTPDownload via httptest (recorder; every 8th also over a real server); non-trivial = the request reached the storage read; distinct = distinct canonical case")
+	rep := vNewReport("C30", "cmd/proxy: POST /lfs/download requests (method, API key, health, JSON, bucket/key/mode spellings incl. Unicode white space and U+0130, integrity sha256 absent/upper case/padded/short/non-hex/foreign, checksum_alg, size 0/-1/len-1/len/len+1/MaxInt64, maxBlob, presign on/off/failing) x stored object (exact, tampered bit, truncated, extended, 3x oversized, sha-right-but-size-wrong; 1 B..70 KB incl. around the 32 KiB copy buffer) x fault sequence over up to 4 successive GetObject calls of the one request (clean / GetObject error / read error after k bytes incl. k=0 / short read, k around 0, len and the 32 KiB chunk boundaries; e.g. read-error-then-clean) through the real handleHTTPDownload over a real HTTP connection (httptest server + client: the oracle judges the bytes the client received; every 4th case also through a recorder); non-trivial = the request reached the storage read; distinct = distinct canonical case")
 	var coq, jsons []string
 	runOne := func(cs c30HTTPCase) {
-		obs, keyOK, fail, key := c30HTTPRun(cs)
+		obs, keyOK, calls, fail, key := c30HTTPRun(cs)
 		canon, _ := json.Marshal(cs)
 		reached := obs.code == "stream" || obs.code == "integrity_failure" || obs.code == "s3_get_failed"
 		rep.Count(string(canon), reached)
@@ -433,7 +531,7 @@ func TestVerifC30Http(t *testing.T) {
 			rep.Fail(key, key, fail, cs)
 		}
 		if len(cs.Object) <= 4096 {
-			coq = append(coq, c30CoqHTTP(cs, obs, keyOK))
+			coq = append(coq, c30CoqHTTP(cs, obs, keyOK, calls))
 			jsons = append(jsons, string(canon))
 		} else {
 			rep.Hist("oracle-only(large object)")
@@ -462,13 +560,24 @@ func TestVerifC30Http(t *testing.T) {
 		over.Object = append(append([]byte(nil), honest...), '!')
 		over.Tag = "corpus/one-byte-longer"
 		rde := base
-		rde.ReadErrAt = 5
+		rde.Attempts = []c30Attempt{{Kind: "read-error", K: 5}}
 		rde.Tag = "corpus/read-error"
+		retry := base // a retrying handler that does not rewind its buffer serves 5 stale bytes + 16 of the object
+		retry.Attempts = []c30Attempt{{Kind: "read-error", K: 5}, {Kind: "clean"}}
+		retry.Tag = "corpus/read-error-then-clean"
+		retry0 := base
+		retry0.Attempts = []c30Attempt{{Kind: "read-error", K: 0}, {Kind: "get-error"}, {Kind: "clean"}}
+		retry0.Tag = "corpus/error-error-clean"
+		big := base // error after exactly one 32 KiB chunk, then clean (object 70000 bytes; oracle-only)
+		big.Object = bytes.Repeat([]byte("0123456789abcdef"), 4375)
+		big.Req.SHA, big.Req.Size = c30SHA(big.Object), int64(len(big.Object))
+		big.Attempts = []c30Attempt{{Kind: "read-error", K: 32 * 1024}, {Kind: "clean"}}
+		big.Tag = "corpus/read-error-after-one-chunk-then-clean"
 		up := base
 		up.Req.SHA = " " + strings.ToUpper(base.Req.SHA) + " "
 		up.Server = true
 		up.Tag = "corpus/upper-case-padded-sha"
-		for _, cs := range []c30HTTPCase{base, short, tam, over, rde, up} {
+		for _, cs := range []c30HTTPCase{base, short, tam, over, rde, retry, retry0, big, up} {
 			runOne(cs)
 		}
 		r := vNewRand(vSeed())
